@@ -316,11 +316,66 @@ def run(rep, index):
                        or r.d[k] == before[k] for k in before if k != roles.data) and set(r.d) == set(before)
             rep.ob("C05.R12 slice-leaves-the-parent-untouched", inst, same, "parent state before/after differ" if not same else "parent state unchanged")
             check_reads(rep, inst, d, n)
+    extra_operations(rep, index, cls, roles, public)
     rep.floor("operation paths", 60)
     rep.floor("search loops analysed", 1)
     rep.assumptions += ["length/index arguments are non-negative (the property's quantifier)",
                         "memoryview slicing shares storage and bytearray(view) copies it (CPython)"]
     rep.trusted.append("/verif/sa/refs/reader_model.py (documented chunked-reading model)")
+
+
+MODELLED = {"remaining", "position", "chunked_reading_mode", "get_byte", "get_bytes", "get_char", "get_short", "get_three", "get_int",
+            "get_string", "get_fixed_string", "get_encoded_string", "get_fixed_encoded_string", "next_chunk", "slice"}
+
+
+def extra_operations(rep, index, cls, roles, public):
+    """Public operations the documented model does not know (added API): the model cannot say what they return, but the
+    generic clauses of the property bind them too -- they do not raise, every access stays inside the data, and they
+    leave the reader in a state satisfying the invariant from which every modelled operation was analysed."""
+    for name in sorted(set(public) - MODELLED):
+        fn = index.methods(cls, name)[0]
+        if any(ast.unparse(d).endswith((".setter", ".deleter")) for d in fn.decorator_list):
+            continue
+        is_prop = any(ast.unparse(d) == "property" for d in fn.decorator_list)
+        params = fn.args.args[1:]
+        kinds = []
+        for a in params:
+            ann = ast.unparse(a.annotation) if a.annotation is not None else None
+            kinds.append({"int": "int", "bool": "bool"}.get(ann))
+        if any(k is None for k in kinds) or fn.args.kwonlyargs or fn.args.vararg or fn.args.kwarg:
+            rep.undecided.append("public operation EoReader.%s takes parameters this check cannot type; it is outside the documented model "
+                                 "and was not analysed" % name)
+            continue
+
+        def task(name=name, kinds=kinds, is_prop=is_prop):
+            w = ReaderWorld(index)
+            d, r, P, M, C, Bk = abstract_state(w, roles)
+            args = [B.fresh("n", 0, None) if k == "int" else B.cur().choose("flag") for k in kinds]
+            if is_prop:
+                st, got = "ok", w.prop(r, name)
+            else:
+                st, got = w.call(r, name, args)
+            return w, d, r, st, got
+        for p, pst, val in _paths(rep, task, name):
+            B.set_path(p)
+            w, d, r, st, got = val
+            inst = "EoReader.%s (not in the documented model) path[%s]" % (name, _fmt(p))
+            rep.count("extra operation paths")
+            rep.ob("C05.R14 operation-total", inst, st == "ok", "%s %r" % (st, got) if st != "ok" else "returns")
+            if st != "ok":
+                continue
+            P2, M2, C2, B2 = r.d.get(roles.pos), r.d.get(roles.mode), r.d.get(roles.chunk), r.d.get(roles.brk)
+            num = lambda x: isinstance(x, (int, Aff)) and not isinstance(x, bool)
+            inb = num(P2) and B.prove_ge0(Aff.of(P2)) is True and B.prove_ge0(d.L - Aff.of(P2)) is True
+            rep.ob("C05.R3 position-within-data", inst, inb, "position' = %r" % (_n(P2) if num(P2) else P2,))
+            inc = num(C2) and B.prove_ge0(Aff.of(C2)) is True and B.prove_ge0(d.L - Aff.of(C2)) is True
+            uncached = num(B2) and B.is_zero(Aff.of(B2) + 1)
+            cached = num(B2) and inc and B.is_zero(Aff.of(B2) - d.ff(C2))
+            inv = inc and isinstance(M2, bool) and ((uncached and not M2 and B.is_zero(Aff.of(C2))) or cached)
+            rep.ob("C05.R4 break-cache-invariant", inst, bool(inv), "chunk start' = %r, cached break' = %r, mode' = %r" % (C2, B2, M2))
+            extra = set(r.d) - {roles.data, roles.pos, roles.mode, roles.chunk, roles.brk}
+            rep.ob("C05.R5 no-hidden-state", inst, not extra and r.d[roles.data] is d, "fields: %s" % sorted(r.d))
+            check_reads(rep, inst, d)
 
 
 def ownership(rep, index, m, cls, roles):
